@@ -95,6 +95,9 @@ func q(s string) string { return strconv.Quote(s) }
 func generateConfig(r *rand.Rand, dumphook string, feedURLs []string) genConfig {
 	var g genConfig
 	var b strings.Builder
+	// two files in five are meant to be accepted: values from the accepted ranges (their edges included), no planted errors -
+	// "safe to run with" needs accepted files, and most of what the other branches write is rejected
+	validMode := r.Intn(5) < 2
 	present := func(key string) bool {
 		if r.Intn(3) == 0 {
 			g.Absent = append(g.Absent, key)
@@ -106,7 +109,12 @@ func generateConfig(r *rand.Rand, dumphook string, feedURLs []string) genConfig 
 		return []string{`"text"`, `true`, `1.5`, `[1, 2]`, `{ a = 1 }`, `1979-05-27T07:32:00Z`, `[]`, `""`}[r.Intn(8)]
 	}
 	intValue := func() string {
-		switch r.Intn(11) {
+		if validMode {
+			return []string{"1", "1", "2", "3", "5", "20", "128", "1000", "65535", "65536", "0x10", "1_0"}[r.Intn(12)]
+		}
+		switch r.Intn(12) {
+		case 11:
+			return []string{"1", "1", "2", "3"}[r.Intn(4)] // the smallest values that are accepted
 		case 10:
 			// large values: around what fits 16, 31, 32 and 63 bits, and around 2^63 ns expressed in seconds
 			return []string{"65535", "65536", "65537", "2147483647", "2147483648", "4294967296", "9223372036", "9223372037", "1099511627776", "9223372036854775807", "9223372036854775806"}[r.Intn(11)]
@@ -144,7 +152,7 @@ func generateConfig(r *rand.Rand, dumphook string, feedURLs []string) genConfig 
 					entries = append(entries, q(feedURLs[r.Intn(len(feedURLs))]))
 				}
 			}
-			if r.Intn(12) == 0 {
+			if r.Intn(12) == 0 && !validMode {
 				fmt.Fprintf(&b, "feed%d = %s\n", i, wrongType())
 				g.Notes = append(g.Notes, "wrong-type")
 			} else {
@@ -155,7 +163,11 @@ func generateConfig(r *rand.Rand, dumphook string, feedURLs []string) genConfig 
 	// [media]
 	if present("media.hook") {
 		b.WriteString("[media]\n")
-		switch r.Intn(8) {
+		hk := r.Intn(8)
+		if validMode {
+			hk = 4 + r.Intn(4)
+		}
+		switch hk {
 		case 0:
 			b.WriteString("hook = []\n")
 			g.Notes = append(g.Notes, "empty-hook")
@@ -183,7 +195,11 @@ func generateConfig(r *rand.Rand, dumphook string, feedURLs []string) genConfig 
 			b.WriteString("[style.colors]\n")
 			wroteColours = true
 		}
-		switch x := r.Intn(12); {
+		x := r.Intn(12)
+		if validMode {
+			x = r.Intn(9)
+		}
+		switch {
 		case x < 8:
 			fmt.Fprintf(&b, "%s = \"#%06x\"\n", k, r.Intn(1<<24))
 		case x < 9:
@@ -231,11 +247,17 @@ func generateConfig(r *rand.Rand, dumphook string, feedURLs []string) genConfig 
 			wroteNet = true
 		}
 		v := intValue()
-		if k == "timeout_seconds" && r.Intn(6) == 0 {
+		if k == "timeout_seconds" && validMode && r.Intn(4) == 0 {
+			v = []string{"0", "1", "60", "9223372036"}[r.Intn(4)]
+		}
+		if k == "preload_amount" && validMode && r.Intn(6) == 0 {
+			v = "0"
+		}
+		if k == "timeout_seconds" && r.Intn(6) == 0 && !validMode {
 			v = []string{`"5s"`, `"1m"`, `2.5`}[r.Intn(3)]
 			g.Notes = append(g.Notes, "duration-variant")
 		}
-		if r.Intn(10) == 0 {
+		if r.Intn(10) == 0 && !validMode {
 			// TOML's special floats and other float spellings: whatever is done with them, the value in force must be usable
 			v = []string{"nan", "+nan", "-nan", "inf", "+inf", "-inf", "1e3", "1e30", "-0.0", "0.5", "1e-9", "9223372036854775807", "-9223372036854775808", "9.3e18"}[r.Intn(14)]
 			g.Notes = append(g.Notes, "float-variant")
@@ -247,7 +269,11 @@ func generateConfig(r *rand.Rand, dumphook string, feedURLs []string) genConfig 
 	}
 	text := b.String()
 	// planted errors
-	switch r.Intn(9) {
+	pe := r.Intn(9)
+	if validMode && pe < 2 {
+		pe = 3 + r.Intn(6)
+	}
+	switch pe {
 	case 0:
 		text += []string{"[network\n", "= 5\n", "key = \n", "[[feeds]]\nx = 1\n[feeds]\n", "a = \"unterminated\n", "[network]\n[network]\n", "x = 1 y = 2\n", "\x00\n"}[r.Intn(8)]
 		g.MustReject = "syntax"
